@@ -6,8 +6,8 @@
    multiplication algorithms, modular inverse, the 10x26 / 8x32 / struct-int128 / asm configurations,
    SHA-256/HMAC/RFC 6979) is tied by the differential correspondence of ./check C05 on a build matrix. *)
 From Coq Require Import ZArith List Bool.
-Require Import Kernel.CSem Kernel.Field5x52 Kernel.Field5x52Sqr Kernel.CtPrimitives Kernel.FieldNormalize Kernel.Scalar4x64 Kernel.ScalarMul512 Kernel.ScalarSqr512 Kernel.ScalarReduce512 Kernel.Scalar8x32Check Kernel.Scalar8x32Mul512 Kernel.Scalar8x32Reduce512 Kernel.Scalar8x32Mul Kernel.FieldPrims Kernel.ScalarMul4x64 Kernel.ScalarMul.
-Require Import Gen.fe_mul_inner Gen.fe_sqr_inner Gen.scalar_cmov Gen.fe_impl_cmov Gen.fe_impl_normalize Gen.scalar_check_overflow Gen.scalar_is_high Gen.scalar_mul_512 Gen.scalar_sqr_512 Gen.scalar_reduce_512 Gen.scalar8x32_mul_512 Gen.scalar8x32_sqr_512 Gen.scalar8x32_check_overflow Gen.scalar8x32_reduce_512 Gen.scalar8x32_mul Gen.scalar8x32_sqr Gen.scalar_mul_512b Gen.scalar_sqr_512b Gen.scalar_mul Gen.scalar_sqr Gen.fe_impl_add Gen.fe_impl_negate_unchecked Gen.fe_impl_half Gen.scalar_negate.
+Require Import Kernel.CSem Kernel.Field5x52 Kernel.Field5x52Sqr Kernel.CtPrimitives Kernel.FieldNormalize Kernel.Scalar4x64 Kernel.ScalarMul512 Kernel.ScalarSqr512 Kernel.ScalarReduce512 Kernel.Scalar8x32Check Kernel.Scalar8x32Mul512 Kernel.Scalar8x32Reduce512 Kernel.Scalar8x32Mul Kernel.FieldPrims Kernel.ScalarMul4x64 Kernel.ScalarMul Kernel.ScalarAdd.
+Require Import Gen.fe_mul_inner Gen.fe_sqr_inner Gen.scalar_cmov Gen.fe_impl_cmov Gen.fe_impl_normalize Gen.scalar_check_overflow Gen.scalar_is_high Gen.scalar_mul_512 Gen.scalar_sqr_512 Gen.scalar_reduce_512 Gen.scalar8x32_mul_512 Gen.scalar8x32_sqr_512 Gen.scalar8x32_check_overflow Gen.scalar8x32_reduce_512 Gen.scalar8x32_mul Gen.scalar8x32_sqr Gen.scalar_mul_512b Gen.scalar_sqr_512b Gen.scalar_mul Gen.scalar_sqr Gen.scalar_add Gen.scalar_half Gen.fe_impl_add Gen.fe_impl_negate_unchecked Gen.fe_impl_half Gen.scalar_negate.
 Import ListNotations.
 Local Open Scope Z_scope.
 
@@ -143,6 +143,24 @@ Theorem scalar8x32_sqr_correct : forall a0 a1 a2 a3 a4 a5 a6 a7,
   scalar8x32_sqr_k a0 a1 a2 a3 a4 a5 a6 a7 Q.
 Proof. exact Kernel.Scalar8x32Mul.scalar8x32_sqr_correct. Qed.
 Print Assumptions scalar8x32_sqr_correct.
+(* Scalar addition (with the final reduction translated in place) and halving, modulo n, for all reduced operands *)
+Theorem scalar_add_correct : forall a0 a1 a2 a3 b0 b1 b2 b3,
+  0 <= a0 < 2^64 -> 0 <= a1 < 2^64 -> 0 <= a2 < 2^64 -> 0 <= a3 < 2^64 ->
+  0 <= b0 < 2^64 -> 0 <= b1 < 2^64 -> 0 <= b2 < 2^64 -> 0 <= b3 < 2^64 ->
+  val4 a0 a1 a2 a3 < N256 -> val4 b0 b1 b2 b3 < N256 ->
+  scalar_add_k a0 a1 a2 a3 b0 b1 b2 b3 (fun r0 r1 r2 r3 ret =>
+    (0 <= r0 < 2^64 /\ 0 <= r1 < 2^64 /\ 0 <= r2 < 2^64 /\ 0 <= r3 < 2^64) /\
+    val4 r0 r1 r2 r3 = (val4 a0 a1 a2 a3 + val4 b0 b1 b2 b3) mod N256 /\
+    ret = (if N256 <=? val4 a0 a1 a2 a3 + val4 b0 b1 b2 b3 then 1 else 0)).
+Proof. exact Kernel.ScalarAdd.scalar_add_correct. Qed.
+Print Assumptions scalar_add_correct.
+Theorem scalar_half_correct : forall a0 a1 a2 a3,
+  0 <= a0 < 2^64 -> 0 <= a1 < 2^64 -> 0 <= a2 < 2^64 -> 0 <= a3 < 2^64 -> val4 a0 a1 a2 a3 < N256 ->
+  scalar_half_k a0 a1 a2 a3 (fun r0 r1 r2 r3 =>
+    (0 <= r0 < 2^64 /\ 0 <= r1 < 2^64 /\ 0 <= r2 < 2^64 /\ 0 <= r3 < 2^64) /\
+    2 * val4 r0 r1 r2 r3 = val4 a0 a1 a2 a3 + (a0 mod 2) * N256 /\ val4 r0 r1 r2 r3 < N256).
+Proof. exact Kernel.ScalarAdd.scalar_half_correct. Qed.
+Print Assumptions scalar_half_correct.
 (* Further limb-level primitives, exact for all in-contract inputs: field addition, negation (magnitude m -> m+1), halving
    (branch-free "add p if odd", then a shift across the limbs), scalar negation modulo n. *)
 Theorem fe_add_correct : forall r0 r1 r2 r3 r4 a0 a1 a2 a3 a4,
